@@ -426,6 +426,16 @@ def _check_links(ck: Checker) -> None:
             if is_method_call(c, "append", "add", "extend", "insert") and norm(c.func.value) in ret_names:
                 sinks.append((n, c))
     ck.floor("C05.links", len(sinks), 1, "appends to the returned list in get_unused_links")
+    # nothing else is ever returned: every return hands out the guarded accumulator or an empty list
+    acc = {norm(c.func.value) for _, c in sinks}
+    for r in walk_own(fn.node):
+        if isinstance(r, ast.Return) and r.value is not None:
+            v = r.value
+            empty = (isinstance(v, (ast.List, ast.Tuple, ast.Set)) and not v.elts) or (isinstance(v, ast.Call) and isinstance(v.func, ast.Name) and v.func.id in ("list", "set", "tuple") and not v.args)
+            okr = empty or (isinstance(v, ast.Name) and v.id in acc and all(d.kind != "assign" or (isinstance(d.value, (ast.List,)) and not d.value.elts) or (isinstance(d.value, ast.Call) and norm(d.value) == "list()") for d in scope_of(fn).get(v.id)))
+            ck.require(okr, "C05.links", fn, r, "a link is reported unused only through the guarded accumulator",
+                       f"`return {norm(v)[:60]}` reports links as unused without the per-link checks (not in use, still there, unmodified since recorded): remove_links then deletes workspace files that were modified after checkout",
+                       construct=f"return {norm(v)[:50]} / guarded result only")
 
     def lit_not_used(t, lab):
         e = t.ast
